@@ -100,7 +100,8 @@ CHECKS["C04"] = dict(
           "one pass of HSolver::AnalyzeProblem (Model/HSolver.lean: conductivity averaging over the previous iterate, lumped "
           "transient term, heat generation, flux / convection / radiation edges planar and axisymmetric, elimination of "
           "prescribed nodes, floating-conductor folding, point sources, (anti)periodic ties, conductor rows) is compared bit "
-          "for bit with the system the real solver hands to PCGSolve in its first pass (hook dump), and its boundary-term "
+          "for bit with the system the real solver hands to PCGSolve in EVERY pass of its nonlinear loop (up to four per problem; "
+          "pass k about the iterate dumped after pass k-1 by the hook), and its boundary-term "
           "functions are proved to balance at the ambient temperature, to carry the exact edge integrals and to reproduce "
           "Stefan-Boltzmann at the linearisation point. PARTIAL: Picard convergence is runtime behaviour (known finding: "
           "radiation runaway with extreme sources)."),
@@ -418,7 +419,7 @@ def main():
 
 
 NOT_APPLICABLE = {}
-HOOK_COMMITS = ['9153212']
+HOOK_COMMITS = ['9153212', '9b55d57']
 
 if __name__ == "__main__":
     main()
